@@ -462,18 +462,14 @@ func c10FailTogether(c *Ctx) {
 	if l := c.needMethod("R-C10-4", "internal/corerad", "listener", "Listen"); l != nil {
 		fn := c.fname(l)
 		deferCancel, deferWait, interrupt := false, false, false
-		for _, ci := range an.CallsIn(l) {
-			if d, ok := ci.(*ssa.Defer); ok {
-				e := c.XO.Of(d.Call.Value)
-				if e.Op == an.OpExtract && e.Idx == 1 && e.Args[0].Op == an.OpCall && e.Args[0].Fn != nil && e.Args[0].Fn.String() == "context.WithCancel" {
+		devs := c.deferredEvents("R-C10-4", l)
+		for _, evs := range devs {
+			for _, ev := range evs {
+				if ev == "cancel" {
 					deferCancel = true
 				}
-				if mc, ok := d.Call.Value.(*ssa.MakeClosure); ok {
-					for _, inner := range an.CallsIn(mc.Fn.(*ssa.Function)) {
-						if fo := an.CalleeObj(inner.Common()); fo != nil && fo.Name() == "Wait" {
-							deferWait = true
-						}
-					}
+				if ev == "Wait" {
+					deferWait = true
 				}
 			}
 		}
@@ -517,30 +513,9 @@ func c10FailTogether(c *Ctx) {
 		// Deferred calls run last-in first-out: the deferred eg.Wait() blocks until the interrupt goroutine
 		// has seen ctx.Done(), so a cancel must run BEFORE it on every return (otherwise a read error that is
 		// not caused by cancellation leaves Listen blocked forever and the task half-alive).
-		var order []string // execution order at function exit
-		var defs []*ssa.Defer
-		for _, ci := range an.CallsIn(l) {
-			if d, ok := ci.(*ssa.Defer); ok {
-				defs = append(defs, d)
-			}
-		}
-		for i := len(defs) - 1; i >= 0; i-- {
-			d := defs[i]
-			e := c.XO.Of(d.Call.Value)
-			if e.Op == an.OpExtract && e.Idx == 1 && e.Args[0].Op == an.OpCall && e.Args[0].Fn != nil && e.Args[0].Fn.String() == "context.WithCancel" {
-				order = append(order, "cancel")
-			}
-			if mc, ok := d.Call.Value.(*ssa.MakeClosure); ok {
-				for _, inner := range an.CallsIn(mc.Fn.(*ssa.Function)) {
-					ie := c.XO.Of(inner.Common().Value)
-					if !inner.Common().IsInvoke() && ie.Op == an.OpExtract && ie.Idx == 1 && ie.Args[0].Op == an.OpCall && ie.Args[0].Fn != nil && ie.Args[0].Fn.String() == "context.WithCancel" {
-						order = append(order, "cancel")
-					}
-					if fo := an.CalleeObj(inner.Common()); fo != nil && fo.Name() == "Wait" {
-						order = append(order, "Wait")
-					}
-				}
-			}
+		var order []string // execution order at function exit: defers run last-in first-out
+		for i := len(devs) - 1; i >= 0; i-- {
+			order = append(order, devs[i]...)
 		}
 		okOrder := false
 		for _, o := range order {
@@ -601,4 +576,69 @@ func goName(c *Ctx, v ssa.Value) string {
 		}
 	}
 	return "?"
+}
+
+// deferredEvents lists, for every defer statement of fn in source order, the
+// cancel() / eg.Wait() calls the deferred call makes, in execution order. The
+// deferred callee (a cancel function, a closure, or a method of a small helper
+// struct) is enumerated with its parameters bound to the arguments at the
+// defer statement, so that `r.cancel` resolves to the cancel function stored
+// in the struct.
+func (c *Ctx) deferredEvents(rule string, fn *ssa.Function) [][]string {
+	isCancel := func(e *an.Expr) bool {
+		return e != nil && e.Op == an.OpExtract && e.Idx == 1 && e.Args[0].Op == an.OpCall && e.Args[0].Fn != nil && e.Args[0].Fn.String() == "context.WithCancel"
+	}
+	var out [][]string
+	for _, ci := range an.CallsIn(fn) {
+		d, ok := ci.(*ssa.Defer)
+		if !ok {
+			continue
+		}
+		var evs []string
+		if !d.Call.IsInvoke() && isCancel(c.XO.Of(d.Call.Value)) {
+			out = append(out, []string{"cancel"})
+			continue
+		}
+		callee := an.StaticCallee(&d.Call)
+		if callee == nil || callee.Blocks == nil {
+			if fo := an.CalleeObj(&d.Call); fo != nil && fo.Name() == "Wait" && fo.Pkg() != nil && fo.Pkg().Path() == "golang.org/x/sync/errgroup" {
+				evs = append(evs, "Wait")
+			}
+			out = append(out, evs)
+			continue
+		}
+		var args []*an.Expr
+		for _, a := range d.Call.Args {
+			args = append(args, c.XO.Of(a))
+		}
+		ps, err := c.XO.PathsBound(callee, args, an.PathOpts{InlinePaths: c.helperInline(callee)})
+		if err != nil {
+			c.R.Undecided(rule, "paths:"+c.fname(callee), c.fname(callee), c.pos(callee.Pos()), err.Error())
+		}
+		for _, p := range ps {
+			if p.Ret == nil {
+				continue
+			}
+			var seq []string
+			p.Instrs(func(in ssa.Instruction) {
+				call, ok := in.(ssa.CallInstruction)
+				if !ok {
+					return
+				}
+				cc := call.Common()
+				if fo := an.CalleeObj(cc); fo != nil && fo.Name() == "Wait" && fo.Pkg() != nil && fo.Pkg().Path() == "golang.org/x/sync/errgroup" {
+					seq = append(seq, "Wait")
+					return
+				}
+				if !cc.IsInvoke() && isCancel(p.Of(cc.Value)) {
+					seq = append(seq, "cancel")
+				}
+			})
+			if len(seq) > len(evs) {
+				evs = seq
+			}
+		}
+		out = append(out, evs)
+	}
+	return out
 }
